@@ -268,7 +268,7 @@ def _part_b(case, tree, d, res: Result) -> None:
     for n, (i, p) in enumerate(points):
         w = fresh_copy(n)
         fs2, crashed, _ = faultfs.run(lambda: save(w), modules, crash_at=i, prefix=p)
-        STATS["crash_points"] += 1
+        res.count("crash_points_enumerated")
         dest = os.path.join(w, "sdkconfig")
         got = _read(dest)
         old = _read(dest + ".old")
@@ -305,4 +305,4 @@ def gen_other(tree, k, n) -> str:
 
 
 def evidence_extra(tier):
-    return {"crash_points_note": "every case of part (b) enumerates all mutating operations of one save; see labels crash-points:N+"}
+    return {"crash_points_note": "every case of part (b) enumerates all mutating operations of one save; counters.crash_points_enumerated is their total"}
